@@ -8,6 +8,8 @@ Extraction Language OCaml.
 Extraction "../ocaml/c02/model.ml"
   Z.add Z.mul Z.sub Z.div_eucl Z.compare Z.of_nat Z.to_nat
   spec_enc_point spec_dec_point spec_leaf_names spec_point_size gen_enc_point gen_dec_point
+  spec_enc_point_rl spec_dec_point_rl spec_leaf_names_rl spec_point_size_rl gen_enc_point_rl gen_dec_point_rl
+  gen_record_summary spec_record_summary spec_legacy_ok
   spec_hdr_layout spec_enc_header spec_dec_header
   spec_vlr_hdr_layout spec_enc_vlr_header spec_dec_vlr_header
   spec_eb_descriptor spec_enc_eb_descriptor spec_dec_eb_descriptor layout_names.
